@@ -104,8 +104,46 @@ func (c *FnCtx) errorf(f string, a ...interface{}) {
 	c.errs = append(c.errs, msg)
 }
 
+var openMemo = map[*Term]bool{}
+
+// isOpen: the term mentions a bound variable outside its binder (such facts, produced while
+// evaluating quantifier bodies, cannot be asserted globally and are dropped).
+func isOpen(t *Term) bool {
+	if v, ok := openMemo[t]; ok {
+		return v
+	}
+	var free func(t *Term, bound map[*Term]bool) bool
+	free = func(t *Term, bound map[*Term]bool) bool {
+		if t.Op == "bvar" {
+			return !bound[t]
+		}
+		if len(t.Bvs) > 0 {
+			nb := map[*Term]bool{}
+			for k := range bound {
+				nb[k] = true
+			}
+			for _, b := range t.Bvs {
+				nb[b] = true
+			}
+			bound = nb
+		}
+		for _, a := range t.Args {
+			if free(a, bound) {
+				return true
+			}
+		}
+		return false
+	}
+	r := free(t, map[*Term]bool{})
+	openMemo[t] = r
+	return r
+}
+
 func (c *FnCtx) addFact(st *State, f *Term) {
 	if c.dry > 0 || f == True {
+		return
+	}
+	if isOpen(f) {
 		return
 	}
 	if st != nil {
